@@ -2,6 +2,7 @@ package c18
 
 import (
 	"fmt"
+	"math/big"
 	"sort"
 	"strconv"
 	"strings"
@@ -69,6 +70,10 @@ func lobjTerm(o slip.Object) (string, bool) {
 			b.WriteString("LNil")
 		case slip.Fixnum:
 			b.WriteString("(LFix " + common.GZ(int64(to)) + ")")
+		case *slip.Bignum:
+			b.WriteString("(LBig " + common.GZs((*big.Int)(to).String()) + ")")
+		case *slip.LongFloat:
+			b.WriteString("(LLong " + gBytes(to.String()) + ")")
 		case slip.Octet:
 			b.WriteString("(LOctet " + common.GZ(int64(to)) + ")")
 		case slip.DoubleFloat:
@@ -118,9 +123,15 @@ func genLispScalar(r *common.Rng, hist func(string)) slip.Object {
 	case x < 20:
 		hist("setval::false")
 		return slip.Symbol(common.Pick(r, []string{":false", ":FALSE", ":False"}))
-	case x < 50:
+	case x < 46:
 		hist("setval:int")
 		return slip.Fixnum(common.Pick(r, []int64{0, 1, -1, 7, 42, -300, 1 << 40, 9223372036854775807, -9223372036854775808}))
+	case x < 50:
+		// a bignum: stored as a json.Number beyond int64, as an int64 when it fits
+		hist("setval:bignum")
+		bi, _ := new(big.Int).SetString(common.Pick(r, []string{"9223372036854775808", "-9223372036854775809", "12345678901234567890",
+			"340282366920938463463374607431768211456", "-99999999999999999999999", "9223372036854775807", "-5"}), 10)
+		return (*slip.Bignum)(bi)
 	case x < 60:
 		hist("setval:float")
 		return slip.DoubleFloat(common.Pick(r, []float64{0.5, -2.25, 1e-7, 3.14159, 1e100}))
@@ -170,6 +181,9 @@ func hasEdgeInt(o slip.Object) bool {
 	switch to := o.(type) {
 	case slip.Fixnum:
 		return int64(to) >= 9223372036854775800 || int64(to) == -9223372036854775808
+	case *slip.Bignum:
+		bi := (*big.Int)(to)
+		return bi.IsInt64() && (bi.Int64() >= 9223372036854775800 || bi.Int64() == -9223372036854775808)
 	case slip.List:
 		for _, e := range to {
 			if hasEdgeInt(e) {
@@ -606,6 +620,33 @@ func (h *harness) pathStream(nHist int) {
 				ctx.Hist("op:has")
 			case x < 78:
 				p := genPath(ctx.Rng, pre, ctx.Rng.Chance(30), true, ctx.Hist)
+				if ctx.Rng.Chance(45) {
+					// the function's result is converted like a value given to bag-set: the identity (the match as
+					// native data, back again) or a constant list / assoc list / :false / bignum
+					fn := "(lambda (x) x)"
+					ft := "MId"
+					if ctx.Rng.Chance(50) {
+						v := genLispValue(ctx.Rng, 2, ctx.Hist)
+						scope.Set(slip.Symbol("val"), v)
+						vt, ok := lobjTerm(v)
+						if !ok {
+							panic("generated Lisp value outside the modelled fragment")
+						}
+						valShown = slip.ObjectString(v)
+						fn = "(lambda (x) val)"
+						ft = "(MConst " + vt + ")"
+						ctx.Hist("op:modify-constant")
+					} else {
+						ctx.Hist("op:modify-identity")
+					}
+					opTerm = fmt.Sprintf("(OModifyFn %s %s)", fragsTerm(p), ft)
+					if ctx.Rng.Chance(25) {
+						lisp = "(send b :modify " + fn + " " + pathArg(p) + ")"
+					} else {
+						lisp = "(bag-modify b " + fn + " " + pathArg(p) + ")"
+					}
+					break
+				}
 				z := int64(ctx.Rng.Intn(1000)) + 1000
 				opTerm = fmt.Sprintf("(OModify %s %s)", fragsTerm(p), common.GZ(z))
 				if ctx.Rng.Chance(25) {
